@@ -1,1 +1,1170 @@
-fn main() { eprintln!("not built yet"); std::process::exit(2); }
+//! C12 — client-chosen names cannot alter the session-server request.
+//!
+//! The real `passage_adapters_http::MojangAdapter::authenticate` is run against a hand-rolled
+//! plain-HTTP mock of the session server on loopback (hook H1: `PASSAGE_VERIF_SESSION_URL`). The
+//! mock records the *raw request line* of every request and answers as the scenario prescribes
+//! (profile / 204 / HTTP error / garbage / dropped connection). The oracle splits the raw line by
+//! hand (no URL library) and checks: method, exact path, exactly one `username` decoding to the
+//! claimed name and exactly one `serverId` equal to the independently computed hash, nothing else;
+//! and that the adapter's result is `Ok(profile served)` exactly for a 2xx JSON profile.
+//!
+//! Scenarios run strictly one after another, so every recorded request belongs to the scenario in
+//! flight (no correlation by content is needed — content is what is being judged).
+
+use passage_adapters::authentication::{AuthenticationAdapter, Profile};
+use passage_adapters_http::MojangAdapter;
+use serde_json::{Value, json};
+use std::collections::BTreeSet;
+use std::net::SocketAddr;
+use std::sync::atomic::{AtomicU64, Ordering};
+use std::sync::{Arc, Mutex};
+use std::time::Duration;
+use tokio::io::{AsyncReadExt, AsyncWriteExt};
+use tokio::net::{TcpListener, TcpStream};
+use uuid::Uuid;
+use vp_common::report::{hex, unhex};
+use vp_common::{Cli, Report, Rng, refcrypto, report};
+
+const PATH: &str = "/session/minecraft/hasJoined";
+const MAX_HEAD: usize = 1 << 20;
+
+// ------------------------------------------------------------------------------------------------
+// scenario
+// ------------------------------------------------------------------------------------------------
+
+#[derive(Clone, Debug, PartialEq)]
+struct ExpProfile {
+    id: String,
+    name: String,
+    /// (name, value, signature)
+    properties: Vec<(String, String, Option<String>)>,
+}
+
+#[derive(Clone, Debug)]
+struct Plan {
+    /// profile | no-content | http-error | garbage | drop
+    kind: String,
+    status: u16,
+    body: Vec<u8>,
+    /// close the connection after reading the request, without answering
+    drop: bool,
+    /// `Some` exactly when the answer is a 2xx JSON profile
+    expect: Option<ExpProfile>,
+}
+
+#[derive(Clone, Debug)]
+struct Case {
+    idx: u64,
+    category: String,
+    name: String,
+    uuid: Uuid,
+    server_id: String,
+    secret: Vec<u8>,
+    public: Vec<u8>,
+    plan: Plan,
+}
+
+fn plan_to_json(p: &Plan) -> Value {
+    json!({
+        "kind": p.kind,
+        "status": p.status,
+        "body_hex": hex(&p.body),
+        "body_text": String::from_utf8_lossy(&p.body).chars().take(400).collect::<String>(),
+        "drop": p.drop,
+        "expect_profile": p.expect.as_ref().map(|e| json!({
+            "id": e.id,
+            "name": e.name,
+            "properties": e.properties.iter().map(|(n, v, s)| json!({"name": n, "value": v, "signature": s})).collect::<Vec<_>>(),
+        })),
+    })
+}
+
+fn case_to_json(c: &Case) -> Value {
+    json!({
+        "idx": c.idx,
+        "category": c.category,
+        "name": c.name,
+        "name_utf8_hex": hex(c.name.as_bytes()),
+        "name_chars": c.name.chars().count(),
+        "uuid": c.uuid.to_string(),
+        "server_id": c.server_id,
+        "shared_secret_hex": hex(&c.secret),
+        "encoded_public_hex": hex(&c.public),
+        "plan": plan_to_json(&c.plan),
+    })
+}
+
+fn case_from_json(v: &Value) -> Option<Case> {
+    let s = |k: &str| v.get(k).and_then(|x| x.as_str()).map(|x| x.to_string());
+    let p = v.get("plan")?;
+    let expect = match p.get("expect_profile") {
+        Some(Value::Object(e)) => Some(ExpProfile {
+            id: e.get("id")?.as_str()?.to_string(),
+            name: e.get("name")?.as_str()?.to_string(),
+            properties: e
+                .get("properties")?
+                .as_array()?
+                .iter()
+                .map(|q| {
+                    (
+                        q.get("name").and_then(|x| x.as_str()).unwrap_or("").to_string(),
+                        q.get("value").and_then(|x| x.as_str()).unwrap_or("").to_string(),
+                        q.get("signature").and_then(|x| x.as_str()).map(|x| x.to_string()),
+                    )
+                })
+                .collect(),
+        }),
+        _ => None,
+    };
+    Some(Case {
+        idx: v.get("idx").and_then(|x| x.as_u64()).unwrap_or(0),
+        category: s("category").unwrap_or_else(|| "replay".into()),
+        name: s("name")?,
+        uuid: Uuid::parse_str(&s("uuid")?).ok()?,
+        server_id: s("server_id")?,
+        secret: unhex(&s("shared_secret_hex")?),
+        public: unhex(&s("encoded_public_hex")?),
+        plan: Plan {
+            kind: p.get("kind")?.as_str()?.to_string(),
+            status: p.get("status")?.as_u64()? as u16,
+            body: unhex(p.get("body_hex")?.as_str()?),
+            drop: p.get("drop").and_then(|x| x.as_bool()).unwrap_or(false),
+            expect,
+        },
+    })
+}
+
+// ------------------------------------------------------------------------------------------------
+// workload
+// ------------------------------------------------------------------------------------------------
+
+const RICH: &[char] = &[
+    '&', '=', '#', '?', '%', '+', '/', '\\', ' ', ';', ':', '@', '\'', '"', '&', '=', '#', '%', '+', ' ',
+    'a', 'B', 'z', 'Q', '0', '7', '_', '-', '.', '~', '\t', '\r', '\n', '\0', '\u{1b}', '\u{7f}', '\u{1}',
+    'é', 'ß', 'Ж', 'É', '日', '本', '€', '😀', '𝔘', '<', '>', '[', ']', '{', '}', '|', '^', '`', ',', '!',
+    '$', '(', ')', '*', '\u{85}', '\u{2028}', '\u{feff}', '\u{a0}',
+];
+const SPECIAL: &[char] = &[
+    '&', '=', '#', '?', '%', '+', '/', '\\', ' ', ';', ':', '@', '\'', '"', '\t', '\r', '\n', '\0',
+];
+const CONTROL: &[char] = &[
+    '\0', '\u{1}', '\u{7}', '\u{8}', '\t', '\n', '\u{b}', '\u{c}', '\r', '\u{1b}', '\u{1f}', '\u{7f}',
+    '\u{80}', '\u{85}', '\u{9f}',
+];
+
+fn non_ascii_char(rng: &mut Rng) -> char {
+    loop {
+        let cp = match rng.below(3) {
+            0 => rng.range(0x80, 0x7ff) as u32,
+            1 => rng.range(0x800, 0xffff) as u32,
+            _ => rng.range(0x10000, 0x10ffff) as u32,
+        };
+        if let Some(c) = char::from_u32(cp) {
+            return c;
+        }
+    }
+}
+
+fn random_hash(rng: &mut Rng) -> String {
+    let sid = rng.ascii_name(0, 12);
+    let secret = rng.bytes(16);
+    let key = rng.bytes(162);
+    refcrypto::minecraft_hash_ref(&sid, &secret, &key)
+}
+
+fn hexdigit(rng: &mut Rng) -> char {
+    *rng.pick(&['0', '1', '2', '3', '4', '5', '6', '7', '8', '9', 'a', 'b', 'c', 'd', 'e', 'f', 'A', 'B', 'C', 'D', 'E', 'F'])
+}
+
+fn insert_at(base: &str, pos_class: u64, what: &str) -> String {
+    let chars: Vec<char> = base.chars().collect();
+    let at = match pos_class {
+        0 => 0,
+        1 => chars.len(),
+        _ => chars.len() / 2,
+    };
+    let mut s: String = chars[..at].iter().collect();
+    s.push_str(what);
+    s.extend(chars[at..].iter());
+    s
+}
+
+/// Fixed, always-run names (one per shape of trouble), so the shapes that fire do not depend on
+/// the seed.
+fn fixed_names(rng: &mut Rng) -> Vec<String> {
+    let other = random_hash(rng);
+    let mut v: Vec<String> = vec![
+        format!("Victim&serverId={other}"),
+        "Victim#".into(),
+        format!("Victim#&serverId={other}"),
+        format!("Victim&serverId={other}#"),
+        "../../other?x=".into(),
+        "/../../../other".into(),
+        "a b".into(),
+        "a+b".into(),
+        "a+b c".into(),
+        "A&b".into(),
+        "a&B=c".into(),
+        "a=b".into(),
+        "%26".into(),
+        "a%26serverId%3Dx".into(),
+        "Victim%23".into(),
+        "%41lice".into(),
+        "a%".into(),
+        "a%zz".into(),
+        "%".into(),
+        "%%".into(),
+        "%2".into(),
+        "%00".into(),
+        "a\tb".into(),
+        "a\r\nb".into(),
+        "a\r\nHost: evil\r\n\r\nGET /x".into(),
+        "\0".into(),
+        "a\0b".into(),
+        "".into(),
+        "é".into(),
+        "É".into(),
+        "日本語".into(),
+        "😀".into(),
+        "a;b".into(),
+        "a;serverId=x".into(),
+        "a:b@c".into(),
+        "'\"".into(),
+        "a\\b".into(),
+        "a/b".into(),
+        "?".into(),
+        "??x=1".into(),
+        "#".into(),
+        "&".into(),
+        "=".into(),
+        "&&".into(),
+        "username".into(),
+        "&username=Other".into(),
+        "Other&username=Victim".into(),
+        "x&serverId=".into(),
+        "x&serverId".into(),
+        "Victim HTTP/1.1".into(),
+        " lead".into(),
+        "trail ".into(),
+        " ".into(),
+        "+".into(),
+        "++".into(),
+        "\u{7f}".into(),
+        "\u{85}".into(),
+        "\u{2028}".into(),
+        "\u{feff}".into(),
+        "Notch".into(),
+        "UPPER_lower_16ch".into(),
+        "A".repeat(5000),
+        "&".repeat(5000),
+        "é".repeat(5000),
+        "a&".repeat(2500),
+        format!("{}&serverId={other}", "V".repeat(4000)),
+    ];
+    v.push(rng.string_from(RICH, 5000));
+    v
+}
+
+fn gen_name(rng: &mut Rng) -> (String, &'static str) {
+    match rng.below(100) {
+        0..=21 => {
+            let len = rng.range(1, 24) as usize;
+            (rng.string_from(RICH, len), "rich")
+        }
+        22..=39 => {
+            let base = rng.ascii_name(1, 15);
+            let sp = rng.pick(SPECIAL).to_string();
+            (insert_at(&base, rng.below(3), &sp), "one-special")
+        }
+        40..=49 => {
+            let mut s = String::new();
+            for _ in 0..rng.range(1, 8) {
+                match rng.below(4) {
+                    0 => s.push_str(&rng.ascii_name(1, 4)),
+                    1 => {
+                        let known = ["%26", "%3D", "%23", "%3F", "%25", "%2B", "%20", "%2F", "%00", "%0A", "%0D", "%C3%A9", "%u0026", "%5C"];
+                        let k: &str = *rng.pick(&known[..]);
+                        s.push_str(k);
+                    }
+                    2 => {
+                        s.push('%');
+                        s.push(hexdigit(rng));
+                        s.push(hexdigit(rng));
+                    }
+                    _ => {
+                        s.push('%');
+                        if rng.bool() {
+                            s.push(hexdigit(rng));
+                        }
+                        if rng.bool() {
+                            s.push(*rng.pick(&['g', 'Z', '%', '&', ' ', '+']));
+                        }
+                    }
+                }
+            }
+            (s, "pre-encoded")
+        }
+        50..=64 => {
+            let victim = rng.ascii_name(3, 16);
+            let h = random_hash(rng);
+            let junk = rng.ascii_name(0, 6);
+            let s = match rng.below(12) {
+                0 => format!("{victim}&serverId={h}"),
+                1 => format!("{victim}#{junk}"),
+                2 => format!("{victim}&serverId={h}#"),
+                3 => format!("{victim}?serverId={h}"),
+                4 => format!("{victim}%26serverId%3D{h}"),
+                5 => format!("&serverId={h}&username={victim}"),
+                6 => format!("{victim};serverId={h}"),
+                7 => format!("{victim}&{junk}"),
+                8 => format!("{victim}&{junk}={junk}"),
+                9 => format!("{victim}&username={junk}"),
+                10 => format!("{victim}\r\n&serverId={h}"),
+                _ => format!("{victim} &serverId={h}#{junk}"),
+            };
+            (s, "attack")
+        }
+        65..=76 => {
+            let mut s = String::new();
+            for _ in 0..rng.range(1, 16) {
+                match rng.below(6) {
+                    0 => s.push(*rng.pick(SPECIAL)),
+                    1 => s.push_str(&rng.ascii_name(1, 2)),
+                    _ => s.push(non_ascii_char(rng)),
+                }
+            }
+            (s, "non-ascii")
+        }
+        77..=86 => {
+            let mut s = String::new();
+            for _ in 0..rng.range(1, 12) {
+                match rng.below(3) {
+                    0 => s.push_str(&rng.ascii_name(1, 3)),
+                    _ => s.push(*rng.pick(CONTROL)),
+                }
+            }
+            (s, "control")
+        }
+        87..=90 => {
+            let len = rng.range(200, 5000) as usize;
+            let s = match rng.below(4) {
+                0 => rng.string_from(RICH, len),
+                1 => rng.string_from(SPECIAL, len),
+                2 => {
+                    let tail = format!("&serverId={}", random_hash(rng));
+                    let mut s = rng.ascii_name(len, len);
+                    s.push_str(&tail);
+                    s
+                }
+                _ => (0..len).map(|_| non_ascii_char(rng)).collect(),
+            };
+            (s, "long")
+        }
+        _ => (rng.ascii_name(1, 16), "plain"),
+    }
+}
+
+fn b64ish(rng: &mut Rng, min: usize, max: usize) -> String {
+    const A: &[u8] = b"ABCDEFGHIJKLMNOPQRSTUVWXYZabcdefghijklmnopqrstuvwxyz0123456789+/=";
+    let len = rng.range(min as i64, max as i64) as usize;
+    (0..len).map(|_| *rng.pick(A) as char).collect()
+}
+
+fn gen_profile(rng: &mut Rng, claimed: &str) -> (ExpProfile, Vec<u8>) {
+    let id = hex(&rng.bytes(16));
+    let name = match rng.below(4) {
+        0 => claimed.chars().take(64).collect::<String>(),
+        1 => {
+            let len = rng.range(1, 12) as usize;
+            rng.string_from(RICH, len)
+        }
+        _ => rng.ascii_name(3, 16),
+    };
+    let mut properties = vec![("textures".to_string(), b64ish(rng, 0, 400), Some(b64ish(rng, 1, 684)))];
+    if rng.chance(1, 4) {
+        properties.push((rng.ascii_name(1, 10), b64ish(rng, 0, 40), Some(b64ish(rng, 1, 40))));
+    }
+    let mut obj = json!({
+        "id": id,
+        "name": name,
+        "properties": properties.iter().map(|(n, v, s)| json!({"name": n, "value": v, "signature": s})).collect::<Vec<_>>(),
+    });
+    if rng.chance(1, 3) {
+        obj["profileActions"] = json!([]);
+    }
+    let body = serde_json::to_vec(&obj).unwrap_or_default();
+    (ExpProfile { id, name, properties }, body)
+}
+
+fn gen_plan(rng: &mut Rng, claimed: &str) -> Plan {
+    match rng.below(100) {
+        0..=44 => {
+            let (expect, body) = gen_profile(rng, claimed);
+            Plan { kind: "profile".into(), status: 200, body, drop: false, expect: Some(expect) }
+        }
+        45..=59 => Plan { kind: "no-content".into(), status: 204, body: vec![], drop: false, expect: None },
+        60..=76 => {
+            let status = *rng.pick(&[403u16, 403, 500, 404, 429, 401, 503, 400]);
+            let body = match rng.below(3) {
+                // an error status wins even over a well-formed profile in the body
+                0 => gen_profile(rng, claimed).1,
+                1 => br#"{"error":"ForbiddenOperationException","path":"/session/minecraft/hasJoined"}"#.to_vec(),
+                _ => vec![],
+            };
+            Plan { kind: "http-error".into(), status, body, drop: false, expect: None }
+        }
+        77..=95 => {
+            let body: Vec<u8> = match rng.below(11) {
+                0 => vec![],
+                1 => b"not json".to_vec(),
+                2 => b"<html><body>502 Bad Gateway</body></html>".to_vec(),
+                3 => {
+                    let b = gen_profile(rng, claimed).1;
+                    let cut = 1 + rng.usize_below(b.len() - 1);
+                    b[..cut].to_vec()
+                }
+                4 => b"{}".to_vec(),
+                5 => b"[]".to_vec(),
+                6 => b"null".to_vec(),
+                7 => br#"{"id":"zz","name":1}"#.to_vec(),
+                8 => {
+                    let n = rng.range(1, 200) as usize;
+                    let mut b = rng.bytes(n);
+                    b[0] = 0xff; // never valid UTF-8, never JSON
+                    b
+                }
+                9 => br#"{"name":"Victim","properties":[]}"#.to_vec(),
+                _ => format!(r#"{{"id":"{}"}}"#, hex(&rng.bytes(16))).into_bytes(),
+            };
+            Plan { kind: "garbage".into(), status: 200, body, drop: false, expect: None }
+        }
+        _ => Plan { kind: "drop".into(), status: 0, body: vec![], drop: true, expect: None },
+    }
+}
+
+fn gen_server_id(rng: &mut Rng) -> String {
+    match rng.below(20) {
+        0..=2 => String::new(),
+        3..=4 => {
+            let len = rng.range(1, 20) as usize;
+            rng.string_from(RICH, len)
+        }
+        5 => rng.ascii_name(100, 300),
+        _ => rng.ascii_name(1, 20),
+    }
+}
+
+fn gen_case(seed: u64, idx: u64, fixed: Option<&str>) -> Case {
+    let mut rng = Rng::stream(seed, idx);
+    let (name, category) = match fixed {
+        Some(n) => (n.to_string(), "fixed"),
+        None => gen_name(&mut rng),
+    };
+    let server_id = gen_server_id(&mut rng);
+    let secret = match rng.below(10) {
+        0 => {
+            let n = rng.range(0, 40) as usize;
+            rng.bytes(n)
+        }
+        _ => rng.bytes(16),
+    };
+    let public = match rng.below(10) {
+        0 => {
+            let n = rng.range(0, 600) as usize;
+            rng.bytes(n)
+        }
+        1 => rng.bytes(294),
+        _ => rng.bytes(162),
+    };
+    let mut u = [0u8; 16];
+    rng.fill(&mut u);
+    let plan = gen_plan(&mut rng, &name);
+    Case {
+        idx,
+        category: category.into(),
+        name,
+        uuid: Uuid::from_bytes(u),
+        server_id,
+        secret,
+        public,
+        plan,
+    }
+}
+
+/// What makes a case distinct: the set of character classes in the name, where the first
+/// non-trivial character sits, the response kind and the sign of the hash. `None` for a trivial
+/// case (name of `[A-Za-z0-9_]` only).
+fn class_key(case: &Case, hash: &str) -> Option<String> {
+    let mut classes: BTreeSet<&'static str> = BTreeSet::new();
+    let n = case.name.chars().count();
+    let mut first_special: Option<usize> = None;
+    for (i, c) in case.name.chars().enumerate() {
+        let cl = match c {
+            'a'..='z' | 'A'..='Z' | '0'..='9' | '_' => continue,
+            '&' => "amp",
+            '=' => "eq",
+            '#' => "hash",
+            '?' => "qmark",
+            '%' => "pct",
+            '+' => "plus",
+            '/' => "slash",
+            '\\' => "bslash",
+            ' ' => "space",
+            ';' => "semi",
+            ':' => "colon",
+            '@' => "at",
+            '\'' | '"' => "quote",
+            '\t' | '\r' | '\n' => "tabcrlf",
+            '\0' => "nul",
+            c if (c as u32) < 0x20 || c as u32 == 0x7f => "ctrl",
+            c if (c as u32) < 0x80 => "punct",
+            c if (c as u32) < 0x800 => "utf8-2",
+            c if (c as u32) < 0x10000 => "utf8-3",
+            _ => "utf8-4",
+        };
+        classes.insert(cl);
+        first_special.get_or_insert(i);
+    }
+    if n == 0 {
+        classes.insert("empty");
+    }
+    if n > 100 {
+        classes.insert("long");
+    }
+    if classes.is_empty() {
+        return None;
+    }
+    let pos = match first_special {
+        Some(0) => "start",
+        Some(i) if i + 1 == n => "end",
+        Some(_) => "middle",
+        None => "-",
+    };
+    Some(format!(
+        "{}|{pos}|{}|{}",
+        classes.into_iter().collect::<Vec<_>>().join("+"),
+        case.plan.kind,
+        if hash.starts_with('-') { "neg" } else { "pos" }
+    ))
+}
+
+// ------------------------------------------------------------------------------------------------
+// mock session server
+// ------------------------------------------------------------------------------------------------
+
+struct Mock {
+    plan: Mutex<Plan>,
+    seen: Mutex<Vec<Vec<u8>>>,
+    connections: AtomicU64,
+    oversize: AtomicU64,
+}
+
+fn find_from(hay: &[u8], needle: &[u8], from: usize) -> Option<usize> {
+    if hay.len() < needle.len() {
+        return None;
+    }
+    (from..=hay.len() - needle.len()).find(|&i| &hay[i..i + needle.len()] == needle)
+}
+
+fn reason(status: u16) -> &'static str {
+    match status {
+        200 => "OK",
+        204 => "No Content",
+        400 => "Bad Request",
+        401 => "Unauthorized",
+        403 => "Forbidden",
+        404 => "Not Found",
+        429 => "Too Many Requests",
+        500 => "Internal Server Error",
+        503 => "Service Unavailable",
+        _ => "Status",
+    }
+}
+
+async fn serve_conn(mut s: TcpStream, mock: Arc<Mock>) {
+    let _ = s.set_nodelay(true);
+    let mut buf: Vec<u8> = Vec::with_capacity(8192);
+    let mut chunk = vec![0u8; 65536];
+    loop {
+        // head
+        let mut searched = 0usize;
+        let end = loop {
+            if let Some(p) = find_from(&buf, b"\r\n\r\n", searched.saturating_sub(3)) {
+                break p + 4;
+            }
+            searched = buf.len();
+            if buf.len() > MAX_HEAD {
+                mock.oversize.fetch_add(1, Ordering::Relaxed);
+                let _ = s.write_all(b"HTTP/1.1 431 Request Header Fields Too Large\r\nContent-Length: 0\r\nConnection: close\r\n\r\n").await;
+                return;
+            }
+            match tokio::time::timeout(Duration::from_secs(120), s.read(&mut chunk)).await {
+                Ok(Ok(0)) | Ok(Err(_)) | Err(_) => return,
+                Ok(Ok(n)) => buf.extend_from_slice(&chunk[..n]),
+            }
+        };
+        let head = &buf[..end];
+        let line_end = head.iter().position(|&b| b == b'\n').unwrap_or(end);
+        let mut line = &head[..line_end];
+        if line.last() == Some(&b'\r') {
+            line = &line[..line.len() - 1];
+        }
+        let line = line.to_vec();
+        // headers: only Content-Length matters (a GET has no body, but stay in sync if it had)
+        let mut body_len = 0usize;
+        for h in head[line_end.min(end)..].split(|&b| b == b'\n') {
+            let h = String::from_utf8_lossy(h);
+            if let Some((k, v)) = h.split_once(':') {
+                if k.trim().eq_ignore_ascii_case("content-length") {
+                    body_len = v.trim().parse().unwrap_or(0);
+                }
+            }
+        }
+        while buf.len() < end + body_len {
+            match tokio::time::timeout(Duration::from_secs(30), s.read(&mut chunk)).await {
+                Ok(Ok(0)) | Ok(Err(_)) | Err(_) => return,
+                Ok(Ok(n)) => buf.extend_from_slice(&chunk[..n]),
+            }
+        }
+        buf.drain(..end + body_len);
+
+        let plan = mock.plan.lock().unwrap_or_else(|e| e.into_inner()).clone();
+        mock.seen.lock().unwrap_or_else(|e| e.into_inner()).push(line);
+        if plan.drop {
+            return;
+        }
+        let mut resp = Vec::with_capacity(plan.body.len() + 128);
+        if plan.status == 204 {
+            resp.extend_from_slice(b"HTTP/1.1 204 No Content\r\nConnection: keep-alive\r\n\r\n");
+        } else {
+            resp.extend_from_slice(
+                format!(
+                    "HTTP/1.1 {} {}\r\nContent-Type: application/json\r\nContent-Length: {}\r\nConnection: keep-alive\r\n\r\n",
+                    plan.status,
+                    reason(plan.status),
+                    plan.body.len()
+                )
+                .as_bytes(),
+            );
+            resp.extend_from_slice(&plan.body);
+        }
+        if s.write_all(&resp).await.is_err() {
+            return;
+        }
+    }
+}
+
+async fn serve(listener: TcpListener, mock: Arc<Mock>) {
+    loop {
+        match listener.accept().await {
+            Ok((s, _)) => {
+                mock.connections.fetch_add(1, Ordering::Relaxed);
+                tokio::spawn(serve_conn(s, mock.clone()));
+            }
+            Err(_) => tokio::time::sleep(Duration::from_millis(5)).await,
+        }
+    }
+}
+
+// ------------------------------------------------------------------------------------------------
+// oracle
+// ------------------------------------------------------------------------------------------------
+
+fn hexval(b: u8) -> Option<u8> {
+    match b {
+        b'0'..=b'9' => Some(b - b'0'),
+        b'a'..=b'f' => Some(b - b'a' + 10),
+        b'A'..=b'F' => Some(b - b'A' + 10),
+        _ => None,
+    }
+}
+
+/// Percent-decoding; `plus_is_space` selects form decoding. A `%` not followed by two hex digits
+/// is kept literally (WHATWG "percent-decode"); the second value tells whether that happened.
+fn pct_decode(raw: &[u8], plus_is_space: bool) -> (Vec<u8>, bool) {
+    let mut out = Vec::with_capacity(raw.len());
+    let mut lenient = false;
+    let mut i = 0;
+    while i < raw.len() {
+        let b = raw[i];
+        if b == b'%' {
+            if raw.len() >= i + 3 {
+                if let (Some(h), Some(l)) = (hexval(raw[i + 1]), hexval(raw[i + 2])) {
+                    out.push(h * 16 + l);
+                    i += 3;
+                    continue;
+                }
+            }
+            lenient = true;
+            out.push(b'%');
+            i += 1;
+        } else if b == b'+' && plus_is_space {
+            out.push(b' ');
+            i += 1;
+        } else {
+            out.push(b);
+            i += 1;
+        }
+    }
+    (out, lenient)
+}
+
+fn decodes_to(raw: &[u8], want: &[u8]) -> (bool, bool, bool) {
+    let (p, lp) = pct_decode(raw, false);
+    let (f, lf) = pct_decode(raw, true);
+    let plain = p == want;
+    let form = f == want;
+    (plain, form, (plain && lp) || (!plain && form && lf))
+}
+
+fn show(bytes: &[u8], max: usize) -> String {
+    let s = String::from_utf8_lossy(bytes);
+    let mut out: String = s.chars().take(max).flat_map(|c| c.escape_debug()).collect();
+    if s.chars().count() > max {
+        out.push_str(&format!("…(+{} chars)", s.chars().count() - max));
+    }
+    out
+}
+
+#[derive(Default, Debug)]
+struct LineInfo {
+    username_plain: bool,
+    username_form: bool,
+    username_lenient: bool,
+    ok: bool,
+}
+
+/// Judges one raw request line. Returns (signature, what) per refuted clause.
+fn judge_line(line: &[u8], name: &str, hash: &str) -> (Vec<(String, String)>, LineInfo) {
+    let mut f: Vec<(String, String)> = vec![];
+    let mut info = LineInfo::default();
+    let nm = show(name.as_bytes(), 60);
+    let shown = show(line, 200);
+    if line.iter().any(|&b| b < 0x20 || b == 0x7f) {
+        f.push((
+            "request/raw-control-character".into(),
+            format!("claimed name \"{nm}\": the request line carries an unescaped control character: {shown}"),
+        ));
+    }
+    let first = line.iter().position(|&b| b == b' ');
+    let last = line.iter().rposition(|&b| b == b' ');
+    let (method, target, version) = match (first, last) {
+        (Some(a), Some(b)) if a < b => (&line[..a], &line[a + 1..b], &line[b + 1..]),
+        _ => {
+            f.push(("request/malformed-line".into(), format!("claimed name \"{nm}\": request line is not `METHOD target VERSION`: {shown}")));
+            return (f, info);
+        }
+    };
+    if !version.starts_with(b"HTTP/1.") {
+        f.push(("request/malformed-line".into(), format!("claimed name \"{nm}\": request line does not end in an HTTP version: {shown}")));
+    }
+    if target.contains(&b' ') {
+        f.push(("request/raw-space".into(), format!("claimed name \"{nm}\": the request target carries an unescaped space: {shown}")));
+    }
+    if method != b"GET" {
+        f.push(("request/method".into(), format!("claimed name \"{nm}\": method is not GET: {shown}")));
+    }
+    // absolute-form (only via a proxy) is tolerated: strip scheme and authority
+    let mut target = target;
+    for scheme in [&b"http://"[..], &b"https://"[..]] {
+        if target.len() >= scheme.len() && target[..scheme.len()].eq_ignore_ascii_case(scheme) {
+            let rest = &target[scheme.len()..];
+            let slash = rest.iter().position(|&b| b == b'/' || b == b'?' || b == b'#').unwrap_or(rest.len());
+            target = &rest[slash..];
+        }
+    }
+    if let Some(p) = target.iter().position(|&b| b == b'#') {
+        f.push(("request/fragment-on-wire".into(), format!("claimed name \"{nm}\": a raw `#` reached the wire: {shown}")));
+        target = &target[..p];
+    }
+    let (path, query): (&[u8], Option<&[u8]>) = match target.iter().position(|&b| b == b'?') {
+        Some(p) => (&target[..p], Some(&target[p + 1..])),
+        None => (target, None),
+    };
+    if path != PATH.as_bytes() {
+        f.push((
+            "path/changed".into(),
+            format!("claimed name \"{nm}\": request path is `{}` instead of `{PATH}`", show(path, 120)),
+        ));
+    }
+    let mut usernames: Vec<&[u8]> = vec![];
+    let mut server_ids: Vec<&[u8]> = vec![];
+    let mut extras: Vec<&[u8]> = vec![];
+    for seg in query.unwrap_or(b"").split(|&b| b == b'&') {
+        if seg.is_empty() {
+            continue; // not a parameter (WHATWG form parsing skips empty sequences)
+        }
+        let (k, v): (&[u8], &[u8]) = match seg.iter().position(|&b| b == b'=') {
+            Some(p) => (&seg[..p], &seg[p + 1..]),
+            None => (seg, b""),
+        };
+        let (kp, _) = pct_decode(k, false);
+        let (kf, _) = pct_decode(k, true);
+        if kp == b"username" || kf == b"username" {
+            usernames.push(v);
+        } else if kp == b"serverId" || kf == b"serverId" {
+            server_ids.push(v);
+        } else {
+            extras.push(seg);
+        }
+    }
+    if let Some(e) = extras.first() {
+        f.push((
+            "query/extra-parameter".into(),
+            format!("claimed name \"{nm}\" added {} parameter(s) to the request, e.g. `{}`: {shown}", extras.len(), show(e, 80)),
+        ));
+    }
+    match usernames.len() {
+        0 => f.push(("query/username-missing".into(), format!("claimed name \"{nm}\": the request carries no username parameter: {shown}"))),
+        1 => {}
+        n => f.push(("query/username-duplicated".into(), format!("claimed name \"{nm}\": the request carries {n} username parameters: {shown}"))),
+    }
+    if let Some(v) = usernames.first() {
+        let any = usernames.iter().map(|v| decodes_to(v, name.as_bytes())).find(|d| d.0 || d.1);
+        match any {
+            Some((p, fo, le)) if usernames.len() == 1 => {
+                info.username_plain = p;
+                info.username_form = fo;
+                info.username_lenient = le;
+            }
+            Some(_) => {}
+            None => {
+                let (dec, _) = pct_decode(v, false);
+                let shape = if !dec.is_empty() && name.as_bytes().starts_with(&dec) {
+                    "the name was cut short"
+                } else {
+                    "a different user"
+                };
+                f.push((
+                    "query/username-mismatch".into(),
+                    format!(
+                        "claimed name \"{nm}\": the username parameter decodes to \"{}\" ({shape}): {shown}",
+                        show(&dec, 60)
+                    ),
+                ));
+            }
+        }
+    }
+    match server_ids.len() {
+        0 => f.push(("query/serverId-missing".into(), format!("claimed name \"{nm}\": the request carries no serverId parameter (expected {hash}): {shown}"))),
+        1 => {}
+        n => f.push(("query/serverId-duplicated".into(), format!("claimed name \"{nm}\": the request carries {n} serverId parameters (expected only {hash}): {shown}"))),
+    }
+    if server_ids.len() == 1 {
+        let (p, fo, _) = decodes_to(server_ids[0], hash.as_bytes());
+        if !(p || fo) {
+            f.push((
+                "query/serverId-mismatch".into(),
+                format!("claimed name \"{nm}\": serverId is `{}` instead of this connection's hash {hash}: {shown}", show(server_ids[0], 80)),
+            ));
+        }
+    } else if server_ids.len() > 1 && !server_ids.iter().any(|v| { let d = decodes_to(v, hash.as_bytes()); d.0 || d.1 }) {
+        f.push((
+            "query/serverId-mismatch".into(),
+            format!("claimed name \"{nm}\": none of the serverId parameters equals this connection's hash {hash}: {shown}"),
+        ));
+    }
+    info.ok = f.is_empty();
+    (f, info)
+}
+
+/// The oracle checks itself on hand-written lines before it is trusted.
+fn oracle_self_test() -> Result<(), String> {
+    let h = "-7c9d5b0044c130109a5d7b5fb5c317c02b4e28c1";
+    let sigs = |line: &str, name: &str| -> Vec<String> {
+        let mut v: Vec<String> = judge_line(line.as_bytes(), name, h).0.into_iter().map(|x| x.0).collect();
+        v.sort();
+        v.dedup();
+        v
+    };
+    let cases: Vec<(String, &str, Vec<&str>)> = vec![
+        (format!("GET {PATH}?username=a%20b%26c&serverId={h} HTTP/1.1"), "a b&c", vec![]),
+        (format!("GET {PATH}?username=a+b%26c&serverId={h} HTTP/1.1"), "a b&c", vec![]),
+        (format!("GET {PATH}?serverId={h}&username=a%2Bb HTTP/1.1"), "a+b", vec![]),
+        (format!("GET {PATH}?username=a+b&serverId={h} HTTP/1.1"), "a+b", vec![]),
+        (format!("GET {PATH}?username=a+b+c&serverId={h} HTTP/1.1"), "a+b c", vec!["query/username-mismatch"]),
+        (format!("GET {PATH}?username=&serverId={h} HTTP/1.1"), "", vec![]),
+        (format!("GET {PATH}?username=%C3%A9%00&serverId=%2D{} HTTP/1.1", &h[1..]), "é\0", vec![]),
+        (format!("GET {PATH}?username=a&b=c&serverId={h} HTTP/1.1"), "a&b=c", vec!["query/extra-parameter", "query/username-mismatch"]),
+        (format!("GET {PATH}?username=V&serverId=1&serverId={h} HTTP/1.1"), "V&serverId=1", vec!["query/serverId-duplicated", "query/username-mismatch"]),
+        (format!("GET {PATH}?username=V HTTP/1.1"), "V#", vec!["query/serverId-missing", "query/username-mismatch"]),
+        (format!("GET {PATH}?username=V#&serverId={h} HTTP/1.1"), "V#", vec!["query/serverId-missing", "query/username-mismatch", "request/fragment-on-wire"]),
+        (format!("GET {PATH}?username={h}&serverId=V HTTP/1.1"), "V", vec!["query/serverId-mismatch", "query/username-mismatch"]),
+        (format!("GET {PATH}/V?serverId={h} HTTP/1.1"), "V", vec!["path/changed", "query/username-missing"]),
+        (format!("GET {PATH}?username=a b&serverId={h} HTTP/1.1"), "a b", vec!["request/raw-space"]),
+        (format!("GET {PATH}?username=a\tb&serverId={h} HTTP/1.1"), "a\tb", vec!["request/raw-control-character"]),
+        (format!("POST {PATH}?username=a&serverId={h} HTTP/1.1"), "a", vec!["request/method"]),
+        (format!("GET {PATH}?username=%2526&serverId={h} HTTP/1.1"), "%26", vec![]),
+        (format!("GET {PATH}?username=%26&serverId={h} HTTP/1.1"), "%26", vec!["query/username-mismatch"]),
+        (format!("GET {PATH}?username=Vic&serverId={h} HTTP/1.1"), "Victim", vec!["query/username-mismatch"]),
+        (format!("GET {PATH}?username=a&username=b&serverId={h} HTTP/1.1"), "a", vec!["query/username-duplicated"]),
+    ];
+    for (line, name, want) in cases {
+        let got = sigs(&line, name);
+        if got != want {
+            return Err(format!("oracle self-test: line {line:?} for name {name:?} judged {got:?}, expected {want:?}"));
+        }
+    }
+    Ok(())
+}
+
+// ------------------------------------------------------------------------------------------------
+// running a case against the real adapter
+// ------------------------------------------------------------------------------------------------
+
+enum Res {
+    Ok(Profile),
+    Err(String),
+    Timeout,
+}
+
+async fn run_case(mock: &Mock, case: &Case) -> (Res, Vec<Vec<u8>>) {
+    *mock.plan.lock().unwrap_or_else(|e| e.into_inner()) = case.plan.clone();
+    mock.seen.lock().unwrap_or_else(|e| e.into_inner()).clear();
+    let adapter = MojangAdapter::default().with_server_id(case.server_id.clone());
+    let client: SocketAddr = SocketAddr::from(([127, 0, 0, 1], 54321));
+    let fut = adapter.authenticate(
+        &client,
+        ("play.example.org", 25565),
+        767,
+        (case.name.as_str(), &case.uuid),
+        &case.secret,
+        &case.public,
+    );
+    let res = match tokio::time::timeout(Duration::from_secs(20), fut).await {
+        Ok(Ok(p)) => Res::Ok(p),
+        Ok(Err(e)) => Res::Err(format!("{e:?}").chars().take(300).collect()),
+        Err(_) => Res::Timeout,
+    };
+    let seen = std::mem::take(&mut *mock.seen.lock().unwrap_or_else(|e| e.into_inner()));
+    (res, seen)
+}
+
+fn profile_json(p: &Profile) -> Value {
+    json!({
+        "id": p.id.as_simple().to_string(),
+        "name": p.name,
+        "properties": p.properties.iter().map(|q| json!({"name": q.name, "value": q.value, "signature": q.signature})).collect::<Vec<_>>(),
+    })
+}
+
+fn main() {
+    // Before any other thread exists: bind the mock's port, point hook H1 at it, keep proxies out.
+    let std_listener = std::net::TcpListener::bind("127.0.0.1:0").expect("bind loopback");
+    let port = std_listener.local_addr().expect("local addr").port();
+    // SAFETY: single-threaded at this point.
+    unsafe {
+        for k in ["HTTP_PROXY", "http_proxy", "HTTPS_PROXY", "https_proxy", "ALL_PROXY", "all_proxy"] {
+            std::env::remove_var(k);
+        }
+        std::env::set_var("NO_PROXY", "*");
+        std::env::set_var("PASSAGE_VERIF_SESSION_URL", format!("http://127.0.0.1:{port}"));
+    }
+
+    let cli = Cli::parse();
+    report::watchdog(&cli.prop, cli.tier.pick(150, 420));
+    let mut report = Report::new(
+        &cli,
+        "exploration",
+        "each case = (claimed name, server id, shared secret, encoded key, mock response) run through the real MojangAdapter::authenticate against a loopback mock; names: a fixed list of attack literals plus seeded draws (rich alphabet of & = # ? % + / \\ space ; : @ quotes, control characters, 2-4 byte UTF-8, %XX pre-encoded text, injected `&serverId=<other hash>`, up to 5000 chars); a case is distinct by (set of character classes in the name, position of the first special character, response kind, sign of the hash) and trivial when the name is [A-Za-z0-9_] only",
+    );
+    report.set_max_samples(8);
+    if cli.prop != "C12" {
+        report.inconclusive_fatal(&format!("vp-mojang decides C12 only, not {}", cli.prop));
+        std::process::exit(report.finish());
+    }
+    if let Err(e) = refcrypto::self_test() {
+        report.inconclusive_fatal(&format!("reference crypto self-test failed: {e}"));
+        std::process::exit(report.finish());
+    }
+    if let Err(e) = oracle_self_test() {
+        report.inconclusive_fatal(&e);
+        std::process::exit(report.finish());
+    }
+    report.assume("the session server splits the query at `&` and each parameter at its first `=` (RFC 3986 / WHATWG form parsing); `;` is not treated as a separator");
+    report.assume("a value is accepted if plain percent-decoding or form decoding (`+` = space) yields the claimed name byte for byte; a `%` not followed by two hex digits decodes to itself");
+    report.assume("scenarios run one at a time, so every request the mock records belongs to the scenario in flight");
+    report.assume("an Err without any request on the wire (e.g. a URL too long to send) is acceptable: nothing was asked about another user");
+
+    // workload
+    let cases: Vec<Case> = if let Some(path) = &cli.replay {
+        let parsed = std::fs::read_to_string(path)
+            .ok()
+            .and_then(|t| serde_json::from_str::<Value>(&t).ok())
+            .and_then(|v| {
+                let w = v.get("witness").cloned().unwrap_or(v);
+                let c = w.get("case").cloned().unwrap_or(w);
+                case_from_json(&c)
+            });
+        match parsed {
+            Some(c) => vec![c],
+            None => {
+                report.inconclusive_fatal(&format!("cannot read a case from replay file {}", path.display()));
+                std::process::exit(report.finish());
+            }
+        }
+    } else {
+        let mut frng = Rng::stream(cli.seed, u64::MAX);
+        let fixed = fixed_names(&mut frng);
+        let total = cli.scaled(cli.tier.pick(500, 20_000));
+        let mut v: Vec<Case> = Vec::with_capacity(total as usize + fixed.len());
+        for (i, n) in fixed.iter().enumerate() {
+            v.push(gen_case(cli.seed, i as u64, Some(n)));
+        }
+        let random = total.saturating_sub(v.len() as u64).max(total / 2);
+        for i in 0..random {
+            v.push(gen_case(cli.seed, 1_000_000 + i, None));
+        }
+        v
+    };
+
+    let rt = tokio::runtime::Builder::new_multi_thread()
+        .worker_threads(4)
+        .enable_all()
+        .build()
+        .expect("tokio runtime");
+
+    let mock = Arc::new(Mock {
+        plan: Mutex::new(Plan { kind: "no-content".into(), status: 204, body: vec![], drop: false, expect: None }),
+        seen: Mutex::new(vec![]),
+        connections: AtomicU64::new(0),
+        oversize: AtomicU64::new(0),
+    });
+
+    rt.block_on(async {
+        std_listener.set_nonblocking(true).expect("nonblocking");
+        let listener = TcpListener::from_std(std_listener).expect("tokio listener");
+        tokio::spawn(serve(listener, mock.clone()));
+
+        for case in &cases {
+            let hash = refcrypto::minecraft_hash_ref(&case.server_id, &case.secret, &case.public);
+            let (res, seen) = run_case(&mock, case).await;
+            let key = class_key(case, &hash);
+            report.eval(key.as_deref());
+            report.count(&format!("cases with name category {}", case.category), 1);
+            report.count(&format!("mock answer: {}", case.plan.kind), 1);
+            report.count("requests received by the mock", seen.len() as u64);
+
+            let res_json = match &res {
+                Res::Ok(p) => json!({"ok": profile_json(p)}),
+                Res::Err(e) => json!({"err": e}),
+                Res::Timeout => json!("timeout"),
+            };
+            let witness = |extra: Value| -> Value {
+                json!({
+                    "case": case_to_json(case),
+                    "expected_hash": hash,
+                    "expected_path": PATH,
+                    "observed_request_lines": seen.iter().map(|l| String::from_utf8_lossy(l).to_string()).collect::<Vec<_>>(),
+                    "observed_result": res_json,
+                    "detail": extra,
+                    "replay": "vp-mojang --prop C12 --replay <this file>",
+                })
+            };
+
+            if let Res::Timeout = res {
+                report.inconclusive_fatal(&format!("authenticate did not return within 20 s for case {} (name \"{}\")", case.idx, show(case.name.as_bytes(), 60)));
+                break;
+            }
+
+            // (1) every request on the wire
+            let mut all_ok = !seen.is_empty();
+            for line in &seen {
+                let (findings, info) = judge_line(line, &case.name, &hash);
+                all_ok &= info.ok;
+                if info.ok {
+                    report.count("request lines satisfying every clause", 1);
+                    match (info.username_plain, info.username_form) {
+                        (true, true) => report.count("username accepted under both decodings", 1),
+                        (true, false) => report.count("username accepted under plain percent-decoding only", 1),
+                        (false, true) => report.count("username accepted under form decoding only", 1),
+                        _ => {}
+                    }
+                    if info.username_lenient {
+                        report.count("username accepted with a literal `%` (not followed by two hex digits)", 1);
+                    }
+                }
+                for (sig, what) in findings {
+                    report.violation(&sig, &what, witness(json!({"signature": sig, "request_line": String::from_utf8_lossy(line)})));
+                }
+            }
+            if seen.len() > 1 {
+                report.count("cases with more than one request (client retry)", 1);
+            }
+
+            // (2) the adapter's result
+            let nm = show(case.name.as_bytes(), 60);
+            match (&res, seen.is_empty()) {
+                (Res::Err(_), true) => {
+                    report.count("adapter returned Err without sending a request (acceptable)", 1);
+                }
+                (Res::Ok(_), true) => {
+                    report.violation(
+                        "result/ok-without-request",
+                        &format!("claimed name \"{nm}\": authenticate returned Ok although no has-joined request was made"),
+                        witness(json!({})),
+                    );
+                }
+                (Res::Ok(p), false) => match &case.plan.expect {
+                    Some(e) => {
+                        let got = ExpProfile {
+                            id: p.id.as_simple().to_string(),
+                            name: p.name.clone(),
+                            properties: p.properties.iter().map(|q| (q.name.clone(), q.value.clone(), q.signature.clone())).collect(),
+                        };
+                        if &got == e {
+                            report.count("Ok(profile) equal to the profile served", 1);
+                        } else {
+                            report.violation(
+                                "result/profile-mismatch",
+                                &format!("claimed name \"{nm}\": authenticate returned a profile (id {}, name \"{}\") other than the one served (id {}, name \"{}\")", got.id, show(got.name.as_bytes(), 40), e.id, show(e.name.as_bytes(), 40)),
+                                witness(json!({})),
+                            );
+                        }
+                    }
+                    None => {
+                        let sig = format!("result/ok-on-{}", case.plan.kind);
+                        report.violation(
+                            &sig,
+                            &format!("claimed name \"{nm}\": authenticate returned Ok although the session server answered {} ({})", case.plan.kind, case.plan.status),
+                            witness(json!({})),
+                        );
+                    }
+                },
+                (Res::Err(e), false) => match &case.plan.expect {
+                    Some(_) => {
+                        report.violation(
+                            "result/err-on-valid-profile",
+                            &format!("claimed name \"{nm}\": authenticate failed ({}) although the session server answered 200 with a valid profile", show(e.as_bytes(), 120)),
+                            witness(json!({})),
+                        );
+                    }
+                    None => report.count("Err on a non-profile answer", 1),
+                },
+                (Res::Timeout, _) => {}
+            }
+
+            if all_ok && key.is_some() && report.wants_sample() && (case.idx % 7 == 0 || case.idx >= 1_000_000) {
+                report.sample(json!({
+                    "name": show(case.name.as_bytes(), 120),
+                    "server_id": case.server_id,
+                    "expected_hash": hash,
+                    "answer": format!("{} {}", case.plan.kind, case.plan.status),
+                    "request_line": seen.first().map(|l| show(l, 300)),
+                    "result": match &res { Res::Ok(p) => format!("Ok(id {}, name {:?})", p.id.as_simple(), p.name), Res::Err(e) => format!("Err({})", e.chars().take(80).collect::<String>()), Res::Timeout => "timeout".into() },
+                }));
+            }
+        }
+    });
+
+    let requests = report.counter("requests received by the mock");
+    let not_sent = report.counter("adapter returned Err without sending a request (acceptable)");
+    report.count("connections accepted by the mock", mock.connections.load(Ordering::Relaxed));
+    report.count("requests with a head over 1 MiB (answered 431)", mock.oversize.load(Ordering::Relaxed));
+    if requests == 0 {
+        report.inconclusive_fatal("no request reached the mock (is passage-adapters-http built with feature verif-hooks and PASSAGE_VERIF_SESSION_URL honoured?)");
+    } else if cli.replay.is_none() && not_sent * 5 > report.evaluations() {
+        report.inconclusive(&format!("{not_sent} of {} cases were refused before a request was sent; the verdict rests on the remaining ones", report.evaluations()));
+    }
+    std::process::exit(report.finish());
+}
